@@ -60,7 +60,22 @@ func argOf(rng *rand.Rand, own []string) string {
 	return own[rng.Intn(len(own))]
 }
 
-func genSetupVector(rng *rand.Rand) (plugin string, v6 bool, args []string, files map[string]string) {
+// genSetupVector draws one vector. idx makes the coverage systematic: the plugin is idx mod 15, the
+// protocol alternates, and the first argument drawn from the plugin's own pool cycles through that pool,
+// so that every pool value of every plugin is used within 15 * 2 * len(pool) consecutive vectors.
+func genSetupVector(rng *rand.Rand, idx int) (plugin string, v6 bool, args []string, files map[string]string) {
+	force := -1
+	if idx >= 0 {
+		force = idx / 30
+	}
+	argOf := func(rng *rand.Rand, own []string) string {
+		if force >= 0 {
+			v := own[force%len(own)]
+			force = -1
+			return v
+		}
+		return argOf(rng, own)
+	}
 	files = map[string]string{
 		"leases4.txt": "00:11:22:33:44:55 10.0.0.10\n02:00:00:00:06:01 10.0.0.11\n",
 		"leases6.txt": "00:11:22:33:44:55 2001:db8::10\n02:00:00:00:06:01 2001:db8::11\n",
@@ -68,7 +83,10 @@ func genSetupVector(rng *rand.Rand) (plugin string, v6 bool, args []string, file
 		"empty.txt":   "",
 	}
 	arity := func(normal int) int {
-		if rng.Intn(4) == 0 {
+		if rng.Intn(4) == 0 && force < 0 {
+			return rng.Intn(7)
+		}
+		if rng.Intn(6) == 0 {
 			return rng.Intn(7)
 		}
 		return normal
@@ -88,8 +106,14 @@ func genSetupVector(rng *rand.Rand) (plugin string, v6 bool, args []string, file
 		{"nbp", true, true}, {"netmask", true, false}, {"prefix", false, true}, {"range", true, false}, {"router", true, false}, {"searchdomains", true, true},
 		{"server_id", true, true}, {"sleep", true, true}, {"staticroute", true, false}}
 	p := all[rng.Intn(len(all))]
+	if idx >= 0 {
+		p = all[idx%len(all)]
+	}
 	plugin = p.name
 	v6 = p.v6 && (!p.v4 || rng.Intn(2) == 0)
+	if idx >= 0 && p.v4 && p.v6 {
+		v6 = (idx/len(all))%2 == 1
+	}
 	switch plugin {
 	case "autoconfigure":
 		args = rep(arity(1), []string{"0", "1", "DoNotAutoConfigure", "AutoConfigure", "2", "autoconfigure"})
@@ -175,7 +199,7 @@ func genSetupVector(rng *rand.Rand) (plugin string, v6 bool, args []string, file
 
 func (setupEngine) Gen(rng *rand.Rand, tier string, i int) any {
 	c := &setupCase{Seed: rng.Int63()}
-	c.Plugin, c.V6, c.Args, _ = genSetupVector(rng)
+	c.Plugin, c.V6, c.Args, _ = genSetupVector(rng, i)
 	return c
 }
 
@@ -188,7 +212,7 @@ func (setupEngine) Decode(raw json.RawMessage) (any, error) {
 func (setupEngine) Run(ctx *fw.Ctx, cs any) {
 	c := cs.(*setupCase)
 	rng := rand.New(rand.NewSource(c.Seed))
-	_, _, _, files := genSetupVector(rand.New(rand.NewSource(1)))
+	_, _, _, files := genSetupVector(rand.New(rand.NewSource(1)), -1)
 	job := &ChainJob{HasV4: !c.V6, HasV6: c.V6, Pre: true, Files: files}
 	var desc []string
 	if c.V6 {
